@@ -317,6 +317,9 @@ class RandInfoBuilder(ModelVisitor,RandIF):
                     for c in self._active_randset.constraints():
                         ex_randset.add_constraint(c)
 
+                    for c in self._active_randset.soft_constraints():
+                        ex_randset.add_constraint(c)
+
                     # Remove the previous randset
                     idx = self._randset_m[self._active_randset]
                     self._randset_m.pop(self._active_randset)
